@@ -107,6 +107,8 @@ class Direct:
                 return self.zeros(i, j)
             if sd.start == 1 and i == j:
                 return np.eye(self.sizes[i], dtype=complex)
+            if isinstance(sd.start, str):          # start = "<input>_0": the zeroth order of an input series
+                return self.val(sd.start[:-2], i, j, n)
         if sd.marker is not None and i > j:
             v = self.val(name, j, i, n).conj().T
             return -v if sd.marker == "antihermitian" else v
@@ -175,11 +177,11 @@ class Direct:
         raise ValueError(k)
 
 
-def make_input(sizes, ninf, seed):
+def make_input(sizes, ninf, seed, nonzero_start=False):
     cache = {}
 
     def value(i, j, n):
-        if sum(n) == 0:
+        if sum(n) == 0 and not nonzero_start:
             return zero
         key = (i, j, tuple(n))
         if key not in cache:
@@ -200,7 +202,10 @@ def run_program(mod, name, sizes, ninf, maxtot, seed, schedule, have_offdiag, fl
     used = {t for s in alg.series for _c, e in s.clauses for t, _a in extract.terms_of(e)} | {t for p in alg.products for t in p.terms}
     in_names = sorted(used - defined)
     nb = len(sizes)
-    values = {nm: make_input(sizes, ninf, seed + 17 * q) for q, nm in enumerate(in_names)}
+    # inputs vanish at zeroth order (well-founded products) except those used as start values ("<name>_0"), which must not be product factors
+    starts = {s.start[:-2] for s in alg.series if isinstance(s.start, str)}
+    in_names = sorted(set(in_names) | starts)
+    values = {nm: make_input(sizes, ninf, seed + 17 * q, nonzero_start=nm in starts) for q, nm in enumerate(in_names)}
     inputs = {nm: (lambda v: (lambda i, j, n: v(i, j, n)))(values[nm]) for nm in in_names}
     scope = {"f": f, "g": g, "diag": diag, "offdiag": offdiag if have_offdiag else None, "two_block_optimized": flags[0], "commuting_blocks": list(flags[1][:nb])}
     series_in = {nm: BlockSeries(eval=(lambda v: (lambda *idx: v(idx[0], idx[1], idx[2:])))(values[nm]), shape=(nb, nb), n_infinite=ninf, name=nm) for nm in in_names}
